@@ -1183,7 +1183,10 @@ def evaluate__xml_to_json(self: XPathFunction, context: ta.ContextType = None) \
                     if math.isnan(number) or math.isinf(number):
                         msg = f'invalid number value {value!r}'
                         raise self.error('FOJS0006', msg)
-                    chunks.append(str(number).rstrip('0').rstrip('.'))
+                    mantissa, _, exponent = str(number).partition('e')
+                    if '.' in mantissa:
+                        mantissa = mantissa.rstrip('0').rstrip('.')
+                    chunks.append(f'{mantissa}e{exponent}' if exponent else mantissa)
 
             elif child.tag == STRING_TAG:
                 check_attributes('key', 'escaped-key', 'escaped')
